@@ -262,7 +262,7 @@ func TestThorough(t *testing.T) {
 	if shard, _ := evid.Shard(); shard == 0 {
 		fix.Pinned(t, prop, replay)
 	}
-	fix.Check(t, "rows", 3000, func(rt *rapid.T) { run(rt, drawCase(rt, 2000)) })
+	fix.Check(t, "rows", 15000, func(rt *rapid.T) { run(rt, drawCase(rt, 2000)) })
 }
 
 func TestReplay(t *testing.T) {
